@@ -55,6 +55,7 @@ def verify_module(path, repo, timeout_ms=20000, workers=16, only=None, verbose=F
     report["dropped"] = {k: sorted(v) for k, v in eng.dropped.items()}
     report["stats"] = eng.stats
     report["dead_calls"] = sorted(set(eng.dead_calls))
+    report["idioms"] = {k: sorted(v) for k, v in eng.idioms.items()}
     report["time"] = time.time() - t0
     return report
 
